@@ -27,6 +27,8 @@ struct SpecPipe {
     name: String,
     kind: String,
     nstages: usize,
+    /// (stage property of the Pipeline block, source name of the entry point), in declaration order
+    stages: Vec<(String, String)>,
     numthreads: Option<(u32, u32, u32)>,
     reachable: Vec<String>,
 }
@@ -40,7 +42,7 @@ struct Spec {
 fn spec_json(s: &Spec) -> Value {
     json!({
         "resources": s.resources.iter().map(|r| json!([r.name, r.kind, r.bindless, r.static_sampler, r.has_array])).collect::<Vec<_>>(),
-        "pipelines": s.pipelines.iter().map(|p| json!({"name": p.name, "kind": p.kind, "nstages": p.nstages,
+        "pipelines": s.pipelines.iter().map(|p| json!({"name": p.name, "kind": p.kind, "nstages": p.nstages, "stages": p.stages,
             "numthreads": p.numthreads.map(|t| vec![t.0, t.1, t.2]), "reachable": p.reachable})).collect::<Vec<_>>(),
     })
 }
@@ -58,6 +60,7 @@ fn spec_from(v: &Value) -> Spec {
             name: p["name"].as_str().unwrap_or("").to_string(),
             kind: p["kind"].as_str().unwrap_or("").to_string(),
             nstages: p["nstages"].as_u64().unwrap_or(0) as usize,
+            stages: p["stages"].as_array().map(|a| a.iter().map(|x| (x[0].as_str().unwrap_or("").to_string(), x[1].as_str().unwrap_or("").to_string())).collect()).unwrap_or_default(),
             numthreads: p["numthreads"].as_array().map(|t| (t[0].as_u64().unwrap_or(0) as u32, t[1].as_u64().unwrap_or(0) as u32, t[2].as_u64().unwrap_or(0) as u32)),
             reachable: p["reachable"].as_array().map(|x| x.iter().filter_map(|n| n.as_str().map(String::from)).collect()).unwrap_or_default(),
         }).collect()).unwrap_or_default(),
@@ -383,6 +386,22 @@ fn check_pipeline(spec: &Spec, src: &str, tgt: Tgt, p: &rssl::CompiledPipeline, 
             return Err(("stage:entry-point-not-defined".into(), ctx(format!("stage {:?} names entry point `{}`", s.stage, s.entry_point))));
         }
         if let Some(sc) = scene {
+            // the function reported for a stage is the one the Pipeline block names for that stage (HLSL keeps the source
+            // functions as entry points, renamed at most by a suffix; Metal generates entry points of its own)
+            if !msl {
+                let property = match s.stage {
+                    rssl::ShaderStage::Vertex => "VertexShader",
+                    rssl::ShaderStage::Pixel => "PixelShader",
+                    rssl::ShaderStage::Compute => "ComputeShader",
+                    rssl::ShaderStage::Task => "TaskShader",
+                    rssl::ShaderStage::Mesh => "MeshShader",
+                };
+                if let Some((_, declared)) = sc.stages.iter().find(|(p, _)| p == property) {
+                    if s.entry_point != *declared && !s.entry_point.starts_with(&format!("{}_", declared)) {
+                        return Err(("stage:entry-point-of-another-stage".into(), ctx(format!("stage {:?} reports entry point `{}`, the pipeline declares {} = {}", s.stage, s.entry_point, property, declared))));
+                    }
+                }
+            }
             let is_compute_like = matches!(s.stage, rssl::ShaderStage::Compute | rssl::ShaderStage::Mesh | rssl::ShaderStage::Task);
             if is_compute_like {
                 let want = match s.stage {
@@ -490,6 +509,7 @@ fn make_record(choices: &[u32], t: usize, modesel: u8, tweak: u16) -> Value {
                 name: prog.names[p.name].clone(),
                 kind: p.kind.to_string(),
                 nstages: p.stages.len(),
+                stages: p.stages.iter().map(|(prop, f)| (prop.to_string(), prog.names[*f].clone())).collect(),
                 numthreads: p.numthreads,
                 reachable: p.reachable.iter().map(|ri| prog.names[prog.resources[*ri].name].clone()).collect(),
             })
